@@ -591,6 +591,12 @@ def spare(ctx, facts):
             r = flow.expr_of(ex, t["args"][1], max_depth=12)
             if r[0] == "agg" and isinstance(r[1], tuple) and r[1][1] in ("RangeTo", "RangeFrom", "Range"):
                 sites.append((bb, base(flow.expr_of(ex, t["args"][0], max_depth=6)), r[1][1], r[2]))
+        elif re.search(r"<impl \[T\]>::split_at$", fn):
+            # `let (head, rest) = v.split_at(n)` is `(&v[..n], &v[n..])`
+            n_ = flow.expr_of(ex, t["args"][1], max_depth=12)
+            bs_ = base(flow.expr_of(ex, t["args"][0], max_depth=6))
+            sites.append((bb, bs_, "RangeTo", (n_,)))
+            sites.append((bb, bs_, "RangeFrom", (n_,)))
     bad = None
     n = 0
     try:
